@@ -290,6 +290,12 @@ func c14(c *core.Ctx) {
 		}
 		c.EndRule()
 	}
+
+	// ---------------------------------------------------------------- R6 (shared)
+	// the renderer that puts the documented HTTP status on the wire is never a nil func (C11/R7): a panic in the
+	// handler aborts the connection and the caller recovers no code at all
+	c.Borrow("C11", map[string]string{"R7": "R6"}, c11)
+
 }
 
 // parseDocTable extracts "Name: [*] NNN Text" rows from the doc comment.
